@@ -380,6 +380,16 @@ theorem crossingAt_on_segment (as ac bs bc c : Rat) (h : bc ≠ ac) :
   show ac + (c - ac) / (bc - ac) * (bc - ac) = c
   rw [div_mul_cancel₀ _ h']; ring
 
+/-- Basis of the side check across a two-pass (x then y) resize step: with the half-open rule a
+    segment crosses a scan line iff exactly one of its two ends is "low" (≤ the line).  Hence along
+    a path the crossings contributed by an interior vertex that changes its low status appear or
+    vanish in pairs at that vertex, and the parity of the crossings before a node centre can change
+    only when an *end point* of the path passes over the ray (`endFlip`, computed from the node
+    rectangles) or the path passes over the centre. -/
+theorem crossesLine_iff_exactly_one_end_low (ac bc c : Rat) :
+    crossesLine ac bc c = (decide (ac ≤ c) != decide (bc ≤ c)) :=
+  crossesLine_eq_low_xor ac bc c
+
 /-- All four state invariants at once (what the driver evaluates after every layout step). -/
 theorem stateOk_sound (ends : List (Nat × Nat)) (s : State) (h : stateOk ends s = true) :
     s.nodes.Pairwise (fun a b => ¬ OverlapBy a b) ∧
